@@ -14,6 +14,9 @@ structure FState where
   /-- (handle, label) -/
   labels : List (Nat × Nat) := []
   nextLabel : Nat := 0
+  /-- parentless nodes no handle was ever handed out for (the fresh node a refused `append_text`
+      … leaves behind, see `Model/Fcreation.lean`): unreachable for the caller, not shown -/
+  hidden : List Nat := []
   deriving Inhabited
 
 namespace FState
@@ -24,7 +27,7 @@ def handleOf (s : FState) (l : Nat) : Option Nat := (s.labels.find? (fun p => p.
 /-- Roots in canonical order: labelled ones by label, then unlabelled ones by handle. -/
 def orderedRoots (s : FState) : List HTree :=
   let labelled := s.forest.roots.filterMap (fun r => (s.labelOf r.handle).map (fun l => (l, r)))
-  let unl := s.forest.roots.filter (fun r => (s.labelOf r.handle).isNone)
+  let unl := s.forest.roots.filter (fun r => (s.labelOf r.handle).isNone && !s.hidden.contains r.handle)
   let sorted := labelled.toArray.qsort (fun a b => a.1 < b.1) |>.toList
   let unlSorted := unl.toArray.qsort (fun a b => a.handle < b.handle) |>.toList
   sorted.map (·.2) ++ unlSorted
